@@ -22,6 +22,7 @@ import (
 	"a0verif/harness/worker"
 	"a0verif/plan"
 
+	"github.com/islishude/bip39/zzclock"
 	"github.com/islishude/bip39/zzsimrt"
 )
 
@@ -50,9 +51,14 @@ type Plan struct {
 	Foreign  bool        `json:"foreign_possible,omitempty"`
 	Shared   []string    `json:"shared_ent,omitempty"` // hex: caller buffers that several tasks pass windows of
 	Grants   bool        `json:"want_grants,omitempty"`
+	// Warm: calls made one after the other by the process's main goroutine BEFORE the concurrent callers start
+	// (a process that has been serving for a while); WarmJump: simulated milliseconds of idleness after them.
+	Warm     []plan.Op `json:"warm,omitempty"`
+	WarmJump int64     `json:"warm_jump_ms,omitempty"`
 }
 
 type Out struct {
+	Warm        []plan.Outcome     `json:"warm,omitempty"`
 	Outcomes    [][]plan.Outcome   `json:"outcomes"`
 	Delivered   [][]string         `json:"delivered"`
 	Reads       [][][]plan.ReadRec `json:"reads"`
@@ -165,6 +171,16 @@ func Main(install func(devs []*dev.Dev), idle *dev.Safe) {
 		s.Policy = newPolicy(&p.Schedule, n)
 	default:
 		die(3, "WORKER-TROUBLE schedule mode %q", p.Schedule.Mode)
+	}
+	for k := range p.Warm { // outside the simulation: the hooks are inert for this goroutine
+		if p.Warm[k].K == "new" {
+			die(3, "WORKER-TROUBLE warm-up call %d needs a device", k)
+		}
+		o, _ := worker.Exec(&p.Warm[k], nil)
+		out.Warm = append(out.Warm, o)
+	}
+	if p.WarmJump != 0 {
+		zzclock.Jump(p.WarmJump)
 	}
 	res := s.Run(tasks)
 	out.Stats, out.Deadlock, out.StepCap, out.Protocol = res.Stats, res.Deadlock, res.StepCap, res.Protocol
